@@ -869,6 +869,16 @@ package tcell
 // with the screen lock released, and once the timeout has expired NO byte remains buffered.
 // (esc-carried: the pending-ESC flag a previous call left behind is what the first round of this call sees - an Alt
 // prefix read in one chunk applies to the key completed by the next)
+// escBefore: an ESC that was pending when a report (focus, mouse, clipboard) completed is delivered as a key of its
+// own ahead of the report's events; without a pending ESC the events are handed back untouched.
+//@ func (*tScreen).escBefore
+//@   arith math
+//@   requires 0 <= n && n <= len(evs)
+//@   ensures [flag] !t.escaped
+//@   ensures [idle] !old(t.escaped) ==> len(result) == len(evs)
+//@   ensures [one-more] old(t.escaped) ==> len(result) == len(evs) + 1
+//@   modifies t.escaped
+
 //@ func (*tScreen).collectEventsFromInput
 //@   arith math
 //@   requires bufwf(buf) && buf != nil && keysNonEmpty(t.keycodes) && valsNonNil(t.keycodes) && !isNil(t.decoder) && t.ti != nil && t.cells.w >= 1 && t.cells.h >= 1
